@@ -448,7 +448,10 @@ func init() {
 				mask int
 			}
 			full := []ds{{[]int{1}, 0}, {[]int{0, 7, 1}, 0b010}, {[]int{100, 0, 3000}, 0b101}, {[]int{32761, 1}, 0}, {[]int{32755, 7, 7}, 0b001}, {[]int{32768}, 0}, {[]int{20000, 20000}, 0b01}}
-			near := []ds{{[]int{65539, 1}, 0}, {[]int{32769, 32761, 7}, 0b010}, {[]int{1, 65539, 1}, 0b111}, {[]int{32753, 32754, 1}, 0}}
+			near := []ds{{[]int{65539, 1}, 0}, {[]int{32769, 32761, 7}, 0b010}, {[]int{1, 65539, 1}, 0b111}, {[]int{32753, 32754, 1}, 0},
+				// a record whose continuation chunk fills block 1 exactly (or up to the padding), so
+				// that the next record starts at the first byte of block 2
+				{[]int{65522, 5}, 0}, {[]int{65519, 5, 1}, 0b010}, {[]int{100, 65415, 9}, 0}}
 			if !quick {
 				for _, a := range c12Lens {
 					for _, b := range []int{0, 1, 7, 32761} {
